@@ -22,7 +22,7 @@ def k_safe(order, gamma):
 
 
 @st.composite
-def ns_inputs(draw, tier, full_rank_only=False, rank_def_only=False):
+def ns_inputs(draw, tier, full_rank_only=False, rank_def_only=False, wide_range=True):
     hi = 6 if tier == "quick" else 7
     m, n = draw(st.integers(1, hi)), draw(st.integers(1, hi))
     k = min(m, n)
@@ -37,7 +37,14 @@ def ns_inputs(draw, tier, full_rank_only=False, rank_def_only=False):
         else:
             r = draw(st.sampled_from([k, k, k, draw(st.integers(0, k))]))
         s = np.zeros(k)
-        if r:
+        if r and wide_range and draw(st.integers(0, 3)) == 0:
+            c = draw(st.sampled_from([1e5, 1e6, 1e7, 1e8]))
+            s[:r] = [c ** (-(i / max(1, r - 1))) for i in range(r)] if r > 1 else [1.0]
+            if r > 2 and draw(st.booleans()):
+                s[1:r - 1] = np.sort(np.array(draw(st.lists(st.sampled_from([1.0, 0.5, 0.25, 0.1]), min_size=r - 2, max_size=r - 2))))[::-1]
+            s[:r] = s[:r] * 10.0 ** draw(st.integers(-2, 2))
+            skind = "wide_dynamic_range"
+        elif r:
             s[:r], skind = draw(gen.spectrum(r, kinds=("distinct", "repeated", "clustered", "geometric", "allequal"),
                                              cond_max=1e4, scale_exp=(-3, 3)))
         else:
@@ -72,7 +79,7 @@ def model_iterate(A, k, order, gamma):
     t = sc * sc / fro2
     for _ in range(k):
         if order == 3:
-            t = 1.0 - (1.0 - t) ** 3
+            t = t * (3.0 - 3.0 * t + t * t)      # = 1-(1-t)^3, written without cancellation for tiny t
         else:
             t = t * (1.0 + gamma * (1.0 - t))
     with np.errstate(divide="ignore", invalid="ignore"):
@@ -116,6 +123,8 @@ def model_cases(draw, tier):
     order = draw(st.sampled_from([2, 2, 3]))
     gamma = draw(st.sampled_from(GAMMAS)) if order == 2 else 1.0
     K = 12 if tier == "quick" else 30
+    if "wide_dynamic_range" in kind:
+        K = 70          # the smallest singular direction needs ~log(kappa^2)/log(3) (resp. /log(1+gamma)) sweeps
     k = draw(st.integers(1, K))
     kk = draw(st.integers(k, K))
     return {"A": A, "kind": kind, "order": order, "gamma": gamma, "k": k, "K": kk,
@@ -137,7 +146,10 @@ def check_model(case):
         ks = k_safe(order, gamma)
         k = min(k, ks)
         K = min(max(K, k), ks)
-    g = ((3.0 if order == 3 else 1.0 + gamma) ** k) if rank_def else 1.0
+    # rounding noise of size u is injected into null(A) at EVERY step and multiplied by (1+gamma) (resp. 3) per
+    # later step: geometric accumulation ((1+gamma)^k - 1)/gamma  (resp. (3^k - 1)/2)
+    gr = 3.0 if order == 3 else 1.0 + gamma
+    g = ((gr ** k - 1.0) / (gr - 1.0)) if rank_def else 1.0
     site, r = run_solver(out, order, A, gamma, k, 0.0, case["compute_residuals"], case["sparse"])
     if r is None:
         return out
